@@ -119,6 +119,22 @@ def gen_plan(rng, tier, i):
     for o_ in ops:
         if o_["op"] == "pickle" and child.random() < 0.4:
             o_["where"] = child.choice(["copy", "deepcopy"])
+    if child.random() < 0.07:
+        # biased history: an object of the heap gives its name to a frame (QSW / TNW / plain), then another object is converted into
+        # that frame (the combination is rare in the unbiased plans)
+        if len(objs) == 1:
+            o2 = dict(objs[0])
+            if "kep" in o2:
+                o2["kep"] = [o2["kep"][0] * 1.01] + list(o2["kep"][1:])
+            o2["cov_seed"] = child.randrange(1 << 30)
+            objs.append(o2)
+        if "kep" in objs[0] and child.random() < 0.7:
+            objs[0]["type"] = "sv"
+            objs[0]["frame"] = child.choice(["TEME", "MOD", "EME2000", "GCRF"])
+            objs[0]["form"] = child.choice(["cartesian", "keplerian", "spherical"])
+        at = child.randint(0, min(len(ops), 3))
+        ops[at:at] = [{"op": "as_frame", "obj": 0, "orient": child.choice(["QSW", "TNW", None])}, {"op": "copy", "obj": 1, "form": None, "frame": "HeapF"}]
+        del ops[6:]
     if child.random() < 0.2 and len(ops) < 6:
         # the date of an object is assigned (a metadata assignment like any other)
         ops.insert(child.randint(0, len(ops)), {"op": "set_date", "obj": child.randrange(8), "dt_s": child.choice([3600.0, -7200.0, 86400.0, 0.5])})
@@ -223,7 +239,8 @@ def snap(o):
         "meta": meta,
         "mans": None if mans is None else tuple((id(m), man_sig(m)) for m in (mans if isinstance(mans, list) else [mans])),
         "cov": None if cov is None else np.array(cov, dtype=float).tobytes(),
-        "cov_itrf": None if cov is None else _cov_view(cov),
+        # (only between built-in frames: an object expressed in a frame attached to another heap object depends on that object by design)
+        "cov_itrf": None if cov is None else (_cov_view(cov) if (d["frame"].name in INERTIAL + ROTATING and str(getattr(cov.frame, "name", cov.frame)) in INERTIAL + ROTATING + ["QSW", "TNW"]) else "-"),
         "cov_frame": None if cov is None else str(getattr(cov.frame, "name", cov.frame)),
         "prop": id(d.get("propagator")) if "propagator" in d else None,
         "type": type(o).__name__,
@@ -786,6 +803,10 @@ class Heap:
             o.user["k"] = 99  # change inside a metadata dict
         else:
             v = op["value"]
+            if op["key"] == "cospar_id":
+                v = "2019-001B"  # an international designator has a format (the TLE writer of a TLE-born orbit reads it)
+            elif op["key"] == "name" and not isinstance(v, str):
+                v = "CHANGED-" + str(v)[:6]  # a name is a text
             setattr(o, op["key"], dict(v) if isinstance(v, dict) else v)
         if any(self.related(j, x) for x in range(len(self.objs)) if x != j):
             self.ctx.probe("mutation_with_relatives")
@@ -898,6 +919,8 @@ class Heap:
             self.rel.append(None)  # a pickle shares nothing by construction
             self.group.append(max(self.group) + 1)
             return
+        if "HeapF" in (before[j]["frame"], before[j]["cov_frame"]):
+            return  # the frame attached to a heap object only exists in this process: a state can only be read where its frame exists
         # another process (fresh node; F8 restart = the same code, nothing but the bytes survives)
         ctx.fault("restart" if where_ == "restart" else "msg_to_other_node")
         ctx.probe("pickle_across_nodes")
